@@ -253,7 +253,7 @@ func (h *histRunner) step(st *histState, gap int64, x *explore.Exec, cookieVal s
 	if cookieVal == "" {
 		cookieVal = e.Seal(st.Cookie)
 	}
-	scriptAuth(e, x, histAlphabet(p))
+	scriptAuthPerStep(e, x, histAlphabet(p))
 	hdr := http.Header{"Cookie": {harness.CookieName + "=" + cookieVal}}
 	resp := e.Do(harness.NewRequest("GET", "/private", hostA, hdr, nil))
 	obs := histObs{Served: resp.Served(), Status: resp.Status}
